@@ -10,9 +10,9 @@ from translate_source import translate
 
 use_repo()
 from pedal.core.commands import clear_report, contextualize_report  # noqa: E402
-from pedal.core.report import MAIN_REPORT  # noqa: E402
+from pedal.core.report import MAIN_REPORT, Report  # noqa: E402
 from pedal.core.submission import Submission  # noqa: E402
-from pedal.source import verify  # noqa: E402
+from pedal.source import verify, set_source  # noqa: E402
 
 THEOREMS = [
     "Pedal.Source.ladder_table",
@@ -136,32 +136,67 @@ def cpython_outcome(code, filename=FILENAME):
         return (type(e).__name__, ln if isinstance(ln, int) else None), None
 
 
-def run_real(code, offset, load_error=False, filename=FILENAME, explicit=False):
+def run_real(code, offset, load_error=False, filename=FILENAME, explicit=False, style=None):
     """The submission's main file is `filename`; a section offset (if any) is registered for the MAIN FILE,
-    as next_section() does. verify() is called bare, or with the code and file name spelled out."""
+    as next_section() does.  `style` = which public spelling reaches verify():
+      0 bare verify() on MAIN_REPORT          1 verify(code, filename) on MAIN_REPORT
+      2 bare verify(report=r) on a Report of the grader's own (MAIN_REPORT cleared and empty)
+      3 verify(code, filename, report=r)      4 set_source(code, filename=filename) on a cleared MAIN_REPORT
+      5 verify(code, 'snippet_zz.py') of a text that is NOT the submission (main file `filename` holds other code)
+    (4 and 5 only without a section offset)."""
+    if style is None:
+        style = 1 if explicit else 0
+    if style in (4, 5) and (offset or load_error):
+        style = 0
     clear_report()
-    # contextualize_report(code, filename=f) stores the file but leaves the MAIN file at 'answer.py';
-    # the main file has to be named explicitly for it to hold the code.
-    contextualize_report(Submission({filename: code}, filename))
-    sub = MAIN_REPORT.submission
-    assert sub.main_file == filename and sub.main_code == code, "harness: submission not set up as intended"
-    if offset:
-        sub.set_line_offset(offset)
-    if load_error:
-        sub.load_error = FileNotFoundError("nope")
+    rep = MAIN_REPORT
+    if style in (2, 3):
+        rep = Report()
+        rep.contextualize(Submission({filename: code}, filename))
+    elif style == 4:
+        pass
+    elif style == 5:
+        contextualize_report(Submission({filename: "zz_other = 1\n"}, filename))
+    else:
+        # contextualize_report(code, filename=f) stores the file but leaves the MAIN file at 'answer.py';
+        # the main file has to be named explicitly for it to hold the code.
+        contextualize_report(Submission({filename: code}, filename))
+    if style not in (4, 5):
+        sub = rep.submission
+        assert sub.main_file == filename and sub.main_code == code, "harness: submission not set up as intended"
+        if offset:
+            sub.set_line_offset(offset)
+        if load_error:
+            sub.load_error = FileNotFoundError("nope")
     out = {"raised": None}
     try:
-        out["returned"] = verify(code, filename) if explicit else verify()
+        if style == 0:
+            out["returned"] = verify()
+        elif style == 1:
+            out["returned"] = verify(code, filename)
+        elif style == 2:
+            out["returned"] = verify(report=rep)
+        elif style == 3:
+            out["returned"] = verify(code, filename, report=rep)
+        elif style == 4:
+            set_source(code, filename=filename)
+            out["returned"] = MAIN_REPORT["source"]["success"] is not False and code.strip() != ""
+        else:
+            out["returned"] = verify(code, "snippet_zz.py")
     except BaseException as e:  # noqa
         out["raised"] = type(e).__name__
         out["detail"] = str(e)[:200]
     fbs = []
-    for f in MAIN_REPORT.feedback:
+    for f in rep.feedback:
         line = f.location.line if getattr(f, "location", None) is not None else None
         fbs.append([f.label, f.category, line])
+    if rep is not MAIN_REPORT:
+        # nothing may be filed on another report than the one the grader passed
+        for f in MAIN_REPORT.feedback:
+            fbs.append(["LEAKED-TO-MAIN_REPORT:" + str(f.label), f.category, None])
     out["feedback"] = fbs
-    out["success"] = MAIN_REPORT["source"]["success"]
-    out["tree"] = MAIN_REPORT["source"]["ast"]
+    out["success"] = rep["source"]["success"]
+    out["tree"] = rep["source"]["ast"]
     return out
 
 
@@ -262,6 +297,12 @@ def make_cases(rng, n):
     for _ in range(n):
         cases.append({"code": gen_text(rng, progs), "offset": rng.choice([0, 0, 0, 1, 5, 40]),
                       "filename": rng.choice(FILENAMES), "explicit": rng.random() < 0.3})
+    for c in cases:
+        if "style" not in c:
+            st = rng.choice([None, None, None, None, 2, 3, 4, 5])   # None: bare / explicit as `explicit` says
+            if st in (4, 5) and c["offset"]:
+                st = 2
+            c["style"] = st if st is not None else (1 if c["explicit"] else 0)
     return cases
 
 
@@ -281,7 +322,7 @@ def correspond(rng, tier, driver):
     rows, lines = [], []
     for c in cases + extra:
         outcome, tree = cpython_outcome(c["code"], c["filename"])
-        real = run_real(c["code"], c["offset"], c.get("load_error", False), c["filename"], c["explicit"])
+        real = run_real(c["code"], c["offset"], c.get("load_error", False), c["filename"], c["explicit"], c.get("style"))
         rows.append((c, outcome, tree, real))
         lines.append(model_request(c["code"], c["offset"], outcome, c.get("load_error", False)))
     answers = driver.ask(lines)
@@ -294,7 +335,7 @@ def correspond(rng, tier, driver):
         if c["code"].strip() == "":
             res.count("blank")
         res.count("file:" + c["filename"])
-        res.count("verify:" + ("explicit" if c["explicit"] else "bare"))
+        res.count("verify-style:%s" % c.get("style"))
         if "\r" in c["code"]:
             res.count("has-CR")
         if outcome is not None or c["code"].strip() == "" or c["offset"]:
@@ -351,7 +392,7 @@ def search(rng, tier, broken, corr):
 
         def fails(code):
             o, t = cpython_outcome(code, c["filename"])
-            r = run_real(code, c["offset"], False, c["filename"], c["explicit"])
+            r = run_real(code, c["offset"], False, c["filename"], c["explicit"], c.get("style"))
             vv = oracle(code, c["offset"], o, t, r)
             return vv is not None and vv[0] == sig
         small = shrink_text(c["code"], c["offset"], fails) if len(c["code"]) < 5000 else c["code"]
@@ -360,10 +401,10 @@ def search(rng, tier, broken, corr):
             return
         seen.add(key)
         o, t = cpython_outcome(small, c["filename"])
-        r = run_real(small, c["offset"], False, c["filename"], c["explicit"])
+        r = run_real(small, c["offset"], False, c["filename"], c["explicit"], c.get("style"))
         vv = oracle(small, c["offset"], o, t, r) or v
         failures.append(Failure(sig, vv[1], {"code": small, "offset": c["offset"], "cpython": o,
-                                            "filename": c["filename"], "explicit": c["explicit"]}))
+                                            "filename": c["filename"], "explicit": c["explicit"], "style": c.get("style")}))
 
     for row in getattr(corr, "rows", []):
         consider(*row)
@@ -378,7 +419,7 @@ def search(rng, tier, broken, corr):
         if len(failures) >= 5:
             break
         outcome, tree = cpython_outcome(c["code"], c["filename"])
-        real = run_real(c["code"], c["offset"], False, c["filename"], c["explicit"])
+        real = run_real(c["code"], c["offset"], False, c["filename"], c["explicit"], c.get("style"))
         consider(c, outcome, tree, real)
     info["distinct_nontrivial"] = len(nt)
     return failures, info
@@ -390,7 +431,7 @@ def replay(payload):
         print(json.dumps(payload, indent=1)[:3000])
         return 0
     outcome, tree = cpython_outcome(rp["code"], rp.get("filename", FILENAME))
-    real = run_real(rp["code"], rp.get("offset", 0), False, rp.get("filename", FILENAME), rp.get("explicit", False))
+    real = run_real(rp["code"], rp.get("offset", 0), False, rp.get("filename", FILENAME), rp.get("explicit", False), rp.get("style"))
     real.pop("tree", None)
     print("code:", repr(rp["code"]))
     print("cpython:", outcome)
